@@ -6,8 +6,9 @@ quick checks, undo) and, if confirmed, stores /verif/seeded/<id>/{patch.diff,dem
 """
 import sys, os, subprocess, shutil, json, glob, datetime
 src, sid, prop, pkgdir, needs = sys.argv[1:6]
+pat = sys.argv[6] if len(sys.argv) > 6 else "*_test.go"
 V = "/verif"
-ver = subprocess.run([V + "/tools/seed_verify.sh", src, pkgdir, "180s"], capture_output=True, text=True).stdout
+ver = subprocess.run([V + "/tools/seed_verify.sh", src, pkgdir, "180s", pat], capture_output=True, text=True).stdout
 print(ver[-600:])
 confirmed = "RESULT confirmed" in ver
 chk = subprocess.run([V + "/tools/seed_check.sh", src + "/patch.diff"], capture_output=True, text=True).stdout
@@ -22,7 +23,7 @@ if not confirmed:
 dst = os.path.join(V, "seeded", sid)
 os.makedirs(dst, exist_ok=True)
 shutil.copy(src + "/patch.diff", dst)
-for f in glob.glob(src + "/*_test.go") + glob.glob(src + "/README.md"):
+for f in glob.glob(src + "/" + pat) + glob.glob(src + "/README.md"):
     shutil.copy(f, dst)
 meta = dict(id=sid, property=prop, breaks=prop, demo_package_dir=pkgdir, needs_to_manifest=needs,
     confirmed=dict(date=str(datetime.date.today()), how="tools/seed_verify.sh: scratch worktree of /repo HEAD; patch applied; go build ./...; go test ./... in main module and internal/{integration,backcompat,grpccompat,twirpcompat}: pass; demo test(s) fail with the patch and pass after reverting it",
